@@ -115,7 +115,9 @@ Definition wf_stream_legacy_b (bs : bytes) (n : N) : bool := wf_stream true (S (
 
 (* ---- integrity rules (C04 reference): header size and tag, non-zero data size, header CRC when present and non-zero,
         file CRC over the whole sequence from its first byte, no trailing bytes.  Returns (valid leading sequences, verdict) *)
-Definition integrity_sequence (bs : bytes) : option bytes :=
+(* [legacy12] / [zerocrc]: the two known deviations of the implementation -- file CRC over the records only when the header
+   is 12 bytes long / when a 14-byte header carries a zero CRC field.  The reference is both flags false. *)
+Definition integrity_sequence_gen (legacy12 zerocrc : bool) (bs : bytes) : option bytes :=
   match bs with
   | hs :: _ =>
     if negb ((hs =? 12) || (hs =? 14)) then None else
@@ -128,19 +130,24 @@ Definition integrity_sequence (bs : bytes) : option bytes :=
     if negb (hcrc =? 0) && negb (hcrc =? crc_of (take 12 h)) then None else
     if len bs <? hs + dsize + 2 then None else
     let fcrc := le16 (take 2 (drop (hs + dsize) bs)) in
-    if fcrc =? crc_of (take (hs + dsize) bs) then Some (drop (hs + dsize + 2) bs) else None
+    let records_only := (legacy12 && (hs =? 12)) || (zerocrc && (hs =? 14) && (hcrc =? 0)) in
+    if fcrc =? (if records_only then crc_of (take dsize (drop hs bs)) else crc_of (take (hs + dsize) bs))
+    then Some (drop (hs + dsize + 2) bs) else None
   | [] => None
   end.
-Fixpoint integrity (fuel : nat) (bs : bytes) (count : N) : N * bool :=
+Definition integrity_sequence := integrity_sequence_gen false false.
+Fixpoint integrity_gen (l12 zc : bool) (fuel : nat) (bs : bytes) (count : N) : N * bool :=
   match fuel with
   | O => (count, false)
   | S f =>
     match bs with
     | [] => (count, negb (count =? 0))
-    | _ => match integrity_sequence bs with Some rest => integrity f rest (count + 1) | None => (count, false) end
+    | _ => match integrity_sequence_gen l12 zc bs with Some rest => integrity_gen l12 zc f rest (count + 1) | None => (count, false) end
     end
   end.
+Definition integrity := integrity_gen false false.
 Definition integrity_b (bs : bytes) : N * bool := integrity (S (length bs)) bs 0.
+Definition integrity_impl_b (bs : bytes) : N * bool := integrity_gen true true (S (length bs)) bs 0.
 
 (* ---- segmentation only (no CRC, no data-size-zero rule): what C16 compares the raw decoder with *)
 Definition segment_sequence (bs : bytes) : option (list segment * bytes) :=
